@@ -15,10 +15,12 @@ LEVEL_TEXT = ("Bounded contract checking: every clause of the statement (enumera
               "statement, over all small sweeps of the quantifier. Only the helper _check_dim_lengths is discharged "
               "deductively; Sweep.generate is a generator over itertools.product of a variable number of sequences and "
               "closures (exclude/derivers), which is outside the proof rung - hence 'exploration'.")
+LEVEL_TEXT += (" Also proved: MultiSweep.combine (the receiver's list of sweeps is extended by the operand - a MultiSweep contributes its sweeps, in order, anything else itself - and the receiver is returned), Sweep.__add__ (a + b is the MultiSweep of exactly (a, b), in this order; TypeError exactly for a non-Sweep operand; the MultiSweep constructor is an assumed contract) and MultiSweep.__add__: the part of '+ / MultiSweep yields their concatenation' that is list manipulation.")
 LEVEL_NOTE = ("Bounds: <=4 keys (quick <=3), value lists of length 0..3 with pairwise distinct values, all partitions of "
               "the keys into dims groups and dims=None, optional constants/derivers/exclude that read only the "
               "operand's own keys, pairs and triples for product and +. Reference: reference semantics in this file.")
 TECHNIQUE = "bounded contract checking against a reference from the statement (+ one deductively verified helper)"
+TECHNIQUE += ('; MultiSweep.combine, Sweep.__add__ and MultiSweep.__add__ discharged by z3')
 EXPLANATION = "see level text; obligations/discharged count the VCs of _check_dim_lengths only"
 RULE = ("all item dicts over keys a..d with value lists of length 0..3 (distinct values), all set partitions as dims and "
         "dims=None, with/without constants, derivers, exclude; distinct = distinct (items, dims, options); non-trivial "
